@@ -83,6 +83,12 @@ PROPS = {
     "C19": dict(nopar=True, suites={"plan": dict(meta=True, fields=LAYOUT + ["tl", "tlorder", "maxthr"], oracles=["meta_same_plan"])}),
     "C20": dict(suites={"plan": dict(fields=["print", "driver-exception"], oracles=["print_total", "print_matches"])}),
 }
+# a case of a thread-driving suite that does not come back within the harness watchdog's budget (a dispatch that never
+# returns) is a failing input of every property that suite serves
+for _p in PROPS.values():
+    for _sn, _ss in _p["suites"].items():
+        if _sn in ("exec", "async", "parseq") and "hang" not in _ss["oracles"]:
+            _ss["oracles"] = list(_ss["oracles"]) + ["hang"]
 
 TRUSTED_BASE = [
     "Coq 8.16.1 kernel (coqc; coqchk in the thorough tier); vm_compute in Examples and params_ok; no native_compute",
@@ -240,12 +246,13 @@ def main():
                 continue
             seen.add(o)
             runner = suites.SUITES[sname]
-            small = runner.shrink(case, o) if not args.replay else case
+            # (a case that hangs is not shrunk: every attempt costs the whole watchdog budget)
+            small = runner.shrink(case, o) if not args.replay and o != "hang" else case
             n_viol += 1
             path = os.path.join(C.VERIF, "replays", "%s-%s-%d.json" % (pid, re.sub(r"\W+", "_", o), n_viol))
             C.write_json(path, dict(property=pid, suite=sname, seed=seed, failing_clause=o, level=lvl,
                                     case=small, shrunk_from=case if small != case else None,
-                                    real=runner.observe(small), how="python3 tools/check.py %s --replay %s" % (pid, path)))
+                                    real="hang" if o == "hang" else runner.observe(small), how="python3 tools/check.py %s --replay %s" % (pid, path)))
             out_lines.append("VIOLATION property=%s replay=%s" % (pid, path))
             rc = 1
     if rc == 0 and (broken or disagreements):
@@ -265,10 +272,10 @@ def main():
         if found:
             o, lvl, case, sname = found
             runner = suites.SUITES[sname]
-            small = runner.shrink(case, o)
+            small = runner.shrink(case, o) if o != "hang" else case
             path = os.path.join(C.VERIF, "replays", "%s-%s-search.json" % (pid, re.sub(r"\W+", "_", o)))
             C.write_json(path, dict(property=pid, suite=sname, seed=seed, failing_clause=o, level=lvl, case=small,
-                                    shrunk_from=case, real=runner.observe(small), found_by="directed search after a broken obligation/correspondence",
+                                    shrunk_from=case, real="hang" if o == "hang" else runner.observe(small), found_by="directed search after a broken obligation/correspondence",
                                     broken=[w for (w, _d) in broken] + [d[0] for d in disagreements[:5]]))
             out_lines.append("VIOLATION property=%s replay=%s" % (pid, path))
         else:
